@@ -1,0 +1,16 @@
+//go:build verif
+
+package repl
+
+// VerifCrash, when set by a verification harness, is called immediately before
+// each file-system step of the history, stash and configuration updates with a
+// name for that step. The harness simulates the process dying at that point by
+// panicking out of the call. Unset (and compiled out without the verif build
+// tag) in normal builds.
+var VerifCrash func(point string)
+
+func verifCrash(point string) {
+	if VerifCrash != nil {
+		VerifCrash(point)
+	}
+}
